@@ -411,7 +411,8 @@ class RTFEncodingService:
 
                 # Check if it's a list/sequence that needs slicing
                 # We use BroadcastValue to expand it to full grid, then slice
-                if isinstance(val, (list, tuple)):
+                # (an empty list, e.g. subline_by=[], has nothing to slice)
+                if isinstance(val, (list, tuple)) and len(val) > 0:
                     # Expand to full grid
                     expanded = BroadcastValue(
                         value=val, dimension=(rows, cols)
